@@ -274,6 +274,14 @@ def run(ctx):
               ((kw(c, 'overwrite') is not None and not (isinstance(kw(c, 'overwrite'), ast.Constant) and kw(c, 'overwrite').value in (None, False))) or
                (c.args and not (isinstance(c.args[0], ast.Constant) and c.args[0].value in (None, False))))]
     dels = [st for st in iter_stmts(wf.body) if isinstance(st, ast.Delete) and "variables['TFLAG']" in norm(st)]
+
+    def under_tstep(n):
+        # inside `if 'TSTEP' in kwds:` TFLAG is one of the processed variables (it has that dimension): rebuilding it there is the
+        # wrapper's business (C10, R-TIMEREDUCE), not a change to a variable that lacks the processed dimensions
+        from ..engine import parent_chain as _pc
+        return any(isinstance(p_, ast.If) and norm(p_.test) in ("'TSTEP' in kwds", "'TSTEP' in kwds.keys()") and any(n is x for b_ in p_.body for x in ast.walk(b_)) for p_ in _pc(n))
+    forced = [c for c in forced if not under_tstep(c)]
+    dels = [st for st in dels if not under_tstep(st)]
     if forced or dels:
         ctx.violation(Finding('R-UNTOUCHED', 'cmaqfiles/_ioapi.py', 'ioapi_base.applyAlongDimensions', api.stmt_of(forced[0]) if forced else dels[0], 'the wrapper regenerates TFLAG as a regular series after every call: a reduction along '
                               'LAY/ROW/COL rewrites the time flags, a variable that lacks those dimensions (files with irregular time flags lose them)'), oid='wrapper:tflag')
